@@ -1,17 +1,34 @@
 import Anysystem.Proofs.R5Defs
+import Anysystem.Proofs.DetThms
 /-!
 # R5, piece 2 — the timed relation holds between a simulator state and the reference state of its snapshot
 
-To make this true, `TimedRel` (R4Defs) has to be generalised in two places (see the task description):
+To make this true, `TimedRel` (R4Defs) has been generalised in two places:
 * the ghosts of the pending timers need not be in creation (id) order: it is enough that for two ghosts `a` before `b`
   the set clocks are non-decreasing and equal firing times are broken by id (`a.id < b.id`) — the snapshot lists the
   timers in `(time, id)` order, all with set clock = the clock at snapshot time and delay = the remaining time;
 * the flights of the reference state are the deliverable queued copies up to order **and up to inert delivery
   options** (`Opts.inert`): the snapshot marks every in-flight message `noFail`.
+
+`R4Defs` cannot use `Opts.inert` / `Flight.core` (they are defined in `R5Defs`, downstream of R4); it has the copies
+`Opts.noFault` / `Flight.key` (`Opts.noFault_eq_inert`, `Flight.key_eq_core` below).  Further invariants the snapshot
+needs and `TimedRel` now carries: every live timer event is addressed to a node with handler (`TimerRel.ghostsCover`
+over all live events), `NetRel.handlersOk`, `NetRel.nodesSorted`.
+
+* `timedRel_snapshot`         — the relation at snapshot time (ghosts: one per live timer event in `dumpEvents` order,
+                                 set clock = now, delay = remaining time);
+* `TimedRel.withTrace`, `RState.step_withTrace` — the trace of the reference state is irrelevant / only appended to;
+* `ticks_snapTimeLaws` and the examples at the end — non-vacuity (`Ticks`, the demo state `q1` of `R4Demo`).
 -/
 namespace Anysystem
 
+set_option linter.unusedSectionVars false
+set_option linter.unusedVariables false
+set_option linter.unusedSimpArgs false
+
 variable {σ T : Type} [TimeOps T]
+
+open Sim
 
 /-- the time laws the snapshot needs beyond `LawfulTime` (they hold for `Ticks`; for `f64` the second one fails in
     general, see finding D16) -/
@@ -22,19 +39,505 @@ structure SnapTimeLaws (bits : T → Nat) : Prop where
   sub_nonneg : ∀ c t : T, TimeOps.le c t = true → TimeOps.le TimeOps.zero (TimeOps.sub t c) = true
   add_mono_left : ∀ a b c : T, TimeOps.le a b = true → TimeOps.le (TimeOps.add a c) (TimeOps.add b c) = true
 
+/-! ## the copies in `R4Defs` of the two definitions of `R5Defs` -/
+
+theorem Opts.noFault_eq_inert (o : Opts) : o.noFault = o.inert := by
+  cases o with
+  | noFail d => rfl
+  | faults a n c => cases a <;> cases n <;> cases c <;> rfl
+
+theorem Flight.key_eq_core (f : Flight) : f.key = f.core := rfl
+
+/-! ## lists -/
+
+theorem filterMap_congr_mem {α β : Type} {f g : α → Option β} {l : List α} (h : ∀ x ∈ l, f x = g x) :
+    l.filterMap f = l.filterMap g := by
+  induction l with
+  | nil => rfl
+  | cons a l ih =>
+    rw [List.filterMap_cons, List.filterMap_cons, h a List.mem_cons_self,
+      ih (fun x hx => h x (List.mem_cons_of_mem _ hx))]
+
+/-- the flights of a pending list built from a source list -/
+theorem flightsOf_zipIdx {α : Type} (L : List α) (F : α → Ev) (n : Nat) :
+    flightsOf ((L.zipIdx n).map (fun (e, i) => (i, F e))) =
+      L.filterMap (fun e => match F e with | .msg m s d o => some (⟨m, s, d, o⟩ : Flight) | _ => none) := by
+  induction L generalizing n with
+  | nil => rfl
+  | cons a l ih =>
+    have ih' := ih (n + 1)
+    unfold flightsOf at ih' ⊢
+    rw [List.zipIdx_cons, List.map_cons, List.filterMap_cons, List.filterMap_cons, ih']
+    dsimp only
+    cases F a <;> rfl
+
+/-- the timers of a pending list built from a source list -/
+theorem timersOf_zipIdx_rel {α : Type} (L : List α) (F : α → Ev) (n : Nat) :
+    timersOf ((L.zipIdx n).map (fun (e, i) => (i, F e))) =
+      L.filterMap (fun e => match F e with | .timer p nm d => some (⟨p, nm, d⟩ : PTimer) | _ => none) := by
+  induction L generalizing n with
+  | nil => rfl
+  | cons a l ih =>
+    have ih' := ih (n + 1)
+    unfold timersOf at ih' ⊢
+    rw [List.zipIdx_cons, List.map_cons, List.filterMap_cons, List.filterMap_cons, ih']
+    dsimp only
+    cases F a <;> rfl
+
+/-- two distinct members of a list are related one way or the other -/
+theorem pairwise_mem_cases {α : Type} {R : α → α → Prop} {l : List α} (h : l.Pairwise R) {a b : α}
+    (ha : a ∈ l) (hb : b ∈ l) (hne : a ≠ b) : R a b ∨ R b a := by
+  induction l with
+  | nil => cases ha
+  | cons x l ih =>
+    rw [List.pairwise_cons] at h
+    rcases List.mem_cons.1 ha with rfl | ha' <;> rcases List.mem_cons.1 hb with rfl | hb'
+    · exact absurd rfl hne
+    · exact Or.inl (h.1 b hb')
+    · exact Or.inr (h.1 a ha')
+    · exact ih h.2 ha' hb'
+
+/-! ## the snapshot's source list -/
+
+/-- the ghost of a queued timer event at snapshot time: set now, with the remaining time as delay -/
+def snapGhost (bits : T → Nat) (clock : T) (e : QEv T) : Option (TimerGhost T) :=
+  match e.data with
+  | .timer p name => some ⟨e.id, p, name, bits (TimeOps.sub e.time clock), clock⟩
+  | .msg _ _ _ _ _ _ => none
+
+theorem snapGhost_some {bits : T → Nat} {c : T} {e : QEv T} {g : TimerGhost T} (h : snapGhost bits c e = some g) :
+    ∃ p name, e.data = .timer p name ∧ g = ⟨e.id, p, name, bits (TimeOps.sub e.time c), c⟩ := by
+  unfold snapGhost at h
+  cases hd : e.data with
+  | msg mid m src sn dst dn => rw [hd] at h; cases h
+  | timer p name => rw [hd] at h; exact ⟨p, name, rfl, (Option.some.inj h).symm⟩
+
+/-- the crashed nodes as the snapshot computes them -/
+def crashedList (q : Sim σ T) : List Nat := (q.nodes.filter (·.2.crashed)).map (·.1)
+
+theorem snapshotSource_eq_filter (q : Sim σ T) : snapshotSource q = q.dumpEvents.filter (snapKeep (crashedList q)) := rfl
+
+theorem mem_snapshotSource_rel (q : Sim σ T) (e : QEv T) :
+    e ∈ snapshotSource q ↔ e ∈ q.live ∧ snapKeep (crashedList q) e = true := by
+  rw [snapshotSource_eq_filter, List.mem_filter, mem_dumpEvents, mem_live]
+
+/-- crashed (flag) = existing node without handler -/
+theorem mem_crashedList (q : Sim σ T)
+    (hhand : ∀ n, n ∈ q.handlers ↔ ∃ nd, amGet? n q.nodes = some nd ∧ nd.crashed = false)
+    (hnodes : (q.nodes.map (·.1)).Nodup) (n : Nat) :
+    n ∈ crashedList q ↔ (amHas n q.nodes = true ∧ ¬ n ∈ q.handlers) := by
+  unfold crashedList
+  simp only [List.mem_map, List.mem_filter]
+  constructor
+  · rintro ⟨x, ⟨hx, hxc⟩, rfl⟩
+    have hg := amGet?_of_mem_nodup hnodes (k := x.1) (v := x.2) hx
+    refine ⟨by rw [amHas_eq, hg]; rfl, ?_⟩
+    intro hh
+    obtain ⟨nd, h1, h2⟩ := (hhand x.1).1 hh
+    rw [hg] at h1
+    rw [Option.some.inj h1, h2] at hxc
+    cases hxc
+  · rintro ⟨hhas, hnh⟩
+    rw [amHas_eq] at hhas
+    cases hg : amGet? n q.nodes with
+    | none => rw [hg] at hhas; cases hhas
+    | some nd =>
+      refine ⟨(n, nd), ⟨amGet?_eq_some_mem hg, ?_⟩, rfl⟩
+      cases hc : nd.crashed with
+      | true => rfl
+      | false => exact absurd ((hhand n).2 ⟨nd, hg, hc⟩) hnh
+
+theorem snapshotSource_perm (q : Sim σ T) : (snapshotSource q).Perm (q.live.filter (snapKeep (crashedList q))) := by
+  rw [snapshotSource_eq_filter]
+  exact (dumpEvents_perm_liveS q).filter _
+
+theorem snapshotSource_ids_nodup_rel (q : Sim σ T) (hwf : q.QueueWF) : ((snapshotSource q).map (·.id)).Nodup := by
+  have h1 : ((q.live.filter (snapKeep (crashedList q))).map (·.id)).Nodup :=
+    (List.Sublist.map _ List.filter_sublist).nodup (ids_nodup_live q hwf)
+  exact (((snapshotSource_perm q).map _).nodup_iff).2 h1
+
+theorem snapshotSource_sorted [LawfulTime T] (q : Sim σ T) :
+    (snapshotSource q).Pairwise (fun a b => evBefore b a = false) := by
+  rw [snapshotSource_eq_filter]
+  exact (dumpEvents_sorted q).sublist List.filter_sublist
+
 /-- **the relation at snapshot time**: whatever reference state the run so far is related to, the simulator state is
     also related to the reference state of its snapshot -/
 theorem timedRel_snapshot [LawfulTime T] (bits : T → Nat) (laws : SnapTimeLaws bits) (q : Sim σ T) (r : RState σ)
     (gs : List (TimerGhost T)) (hr : TimedRel bits q r gs) :
-    ∃ gs₀, TimedRel bits q (snapshotRef bits q) gs₀ := sorry
+    ∃ gs₀, TimedRel bits q (snapshotRef bits q) gs₀ := by
+  have hwf := hr.queue.queueWF
+  have hhand := hr.net.handlersOk
+  have hsorted := hr.net.nodesSorted
+  have hnd : (q.nodes.map (·.1)).Nodup := hsorted.nodup
+  have hcrl := mem_crashedList q hhand hnd
+  have hloc : ∀ n nd p e, amGet? n q.nodes = some nd → amGet? p nd.procs = some e →
+      amGet? p q.net.procLoc = some n := by
+    intro n nd p e hn hp
+    exact (hr.proc.procs n p e (by rw [proc?_eq hn]; exact hp)).2
+  -- the time laws on the live events
+  have htime : ∀ e ∈ q.live, TimeOps.le TimeOps.zero (TimeOps.sub e.time q.clock) = true ∧
+      e.time = TimeOps.add q.clock (TimeOps.ofBits (bits (TimeOps.sub e.time q.clock))) := by
+    intro e he
+    have hc : TimeOps.le q.clock e.time = true := hr.queue.clockOk e ((mem_live q e).1 he).1
+    have h0 := laws.sub_nonneg q.clock e.time hc
+    exact ⟨h0, by rw [laws.ofBits_bits _ h0, laws.add_sub _ _ hc]⟩
+  -- flights and timers of the snapshot, read off the source list
+  have hflights : (snapshotRef bits q).flights = (snapshotSource q).filterMap (fun e =>
+      match snapEv bits q.clock (snapshotNet bits q).maxDelay e with
+      | .msg m s d o => some (⟨m, s, d, o⟩ : Flight) | _ => none) :=
+    flightsOf_zipIdx (snapshotSource q) _ 0
+  have htimers : (snapshotRef bits q).timers = (snapshotSource q).filterMap (fun e =>
+      match snapEv bits q.clock (snapshotNet bits q).maxDelay e with
+      | .timer p nm d => some (⟨p, nm, d⟩ : PTimer) | _ => none) :=
+    timersOf_zipIdx_rel (snapshotSource q) _ 0
+  -- members of the ghost list
+  have hghost : ∀ g, g ∈ (snapshotSource q).filterMap (snapGhost bits q.clock) ↔
+      ∃ e ∈ q.live, ∃ p name, e.data = .timer p name ∧
+        g = ⟨e.id, p, name, bits (TimeOps.sub e.time q.clock), q.clock⟩ := by
+    intro g
+    rw [List.mem_filterMap]
+    constructor
+    · rintro ⟨e, he, hg⟩
+      rw [mem_snapshotSource_rel] at he
+      unfold snapGhost at hg
+      cases hd : e.data with
+      | msg mid m src sn dst dn => rw [hd] at hg; cases hg
+      | timer p name =>
+        rw [hd] at hg
+        exact ⟨e, he.1, p, name, hd, (Option.some.inj hg).symm⟩
+    · rintro ⟨e, he, p, name, hd, rfl⟩
+      refine ⟨e, (mem_snapshotSource_rel q e).2 ⟨he, by simp [snapKeep, hd]⟩, ?_⟩
+      simp [snapGhost, hd]
+  have htm : (snapshotRef bits q).timers =
+      ((snapshotSource q).filterMap (snapGhost bits q.clock)).map TimerGhost.toPTimer := by
+    rw [htimers, List.map_filterMap]
+    apply filterMap_congr_mem
+    intro e _
+    unfold snapEv snapGhost
+    cases e.data <;> rfl
+  -- ids of the source list are distinct, and it is sorted by `(time, id)`
+  have hids : (snapshotSource q).Pairwise (fun a b => a.id ≠ b.id) :=
+    List.pairwise_map.1 (snapshotSource_ids_nodup_rel q hwf)
+  have hsrc : (snapshotSource q).Pairwise (fun a b =>
+      (evBefore b a = false ∧ a.id ≠ b.id) ∧ a ∈ q.live ∧ b ∈ q.live) := by
+    refine List.Pairwise.imp_of_mem ?_ ((snapshotSource_sorted q).and hids)
+    intro a b ha hb hab
+    exact ⟨hab, ((mem_snapshotSource_rel q a).1 ha).1, ((mem_snapshotSource_rel q b).1 hb).1⟩
+  -- at most one live timer event per (process, name)
+  have huniq : ∀ e1 ∈ q.live, ∀ e2 ∈ q.live, ∀ p name, e1.data = .timer p name → e2.data = .timer p name →
+      e1.id = e2.id := by
+    intro e1 h1 e2 h2 p name hd1 hd2
+    have hdl1 : e1 ∈ q.deliverable := (mem_deliverable q e1).2 ⟨h1, hr.timer.timerLive hwf h1 hd1⟩
+    have hdl2 : e2 ∈ q.deliverable := (mem_deliverable q e2).2 ⟨h2, hr.timer.timerLive hwf h2 hd2⟩
+    obtain ⟨g1, hg1, hid1, hp1, hn1, _⟩ := ghost_of_timer hr hdl1 hd1
+    obtain ⟨g2, hg2, hid2, hp2, hn2, _⟩ := ghost_of_timer hr hdl2 hd2
+    by_cases hne : g1 = g2
+    · rw [← hid1, ← hid2, hne]
+    · exfalso
+      have hu := hr.timer.uniq
+      unfold RState.timersUnique at hu
+      rw [hr.timer.timers, List.pairwise_map] at hu
+      rcases pairwise_mem_cases hu hg1 hg2 hne with h | h
+      · exact h ⟨by simp [TimerGhost.toPTimer, hp1, hp2], by simp [TimerGhost.toPTimer, hn1, hn2]⟩
+      · exact h ⟨by simp [TimerGhost.toPTimer, hp1, hp2], by simp [TimerGhost.toPTimer, hn1, hn2]⟩
+  refine ⟨(snapshotSource q).filterMap (snapGhost bits q.clock),
+    netRel_snapshotNet bits q _ hr.net.ratesZero hr.net.locNodes hhand hsorted rfl hcrl,
+    tprocRel_flat q _ hloc hnd rfl, hr.queue, ⟨?_, ?_, ?_, ?_, ?_, ?_, ?_, ?_, hr.timer.pendMap, ?_⟩, ⟨?_, ?_⟩⟩
+  · exact htm
+  · -- ghostsNodup
+    show List.Pairwise (· ≠ ·) (List.map _ _)
+    rw [List.pairwise_map]
+    refine List.Pairwise.filterMap _ ?_ hids
+    intro a a' hne b hb b' hb'
+    obtain ⟨_, _, _, rfl⟩ := snapGhost_some hb
+    obtain ⟨_, _, _, rfl⟩ := snapGhost_some hb'
+    exact hne
+  · -- ghostsTie: the source list is in `(time, id)` order
+    refine List.Pairwise.filterMap _ ?_ hsrc
+    rintro a a' ⟨⟨hbef, hne⟩, hla, hla'⟩ b hb b' hb' hfire
+    obtain ⟨_, _, _, rfl⟩ := snapGhost_some hb
+    obtain ⟨_, _, _, rfl⟩ := snapGhost_some hb'
+    have hteq : a.time = a'.time := by
+      rw [(htime a hla).2, (htime a' hla').2]; exact hfire
+    obtain ⟨_, hle⟩ := (evBefore_eq_false_iff a' a).1 hbef
+    have := hle (by rw [hteq]; exact LawfulTime.le_refl _)
+    exact Nat.lt_of_le_of_ne this hne
+  · -- ghostsCover
+    intro e he p name hd
+    exact ⟨_, (hghost _).2 ⟨e, he, p, name, hd, rfl⟩, rfl⟩
+  · -- ghostsLive
+    intro g hg
+    obtain ⟨e, he, p, name, hd, rfl⟩ := (hghost g).1 hg
+    exact ⟨e, (mem_deliverable q e).2 ⟨he, hr.timer.timerLive hwf he hd⟩, rfl, hd, (htime e he).2⟩
+  · -- ghostClock
+    intro g hg
+    obtain ⟨e, he, p, name, hd, rfl⟩ := (hghost g).1 hg
+    exact LawfulTime.le_refl _
+  · -- ghostMono
+    apply List.pairwise_of_forall_mem_list
+    intro a ha b hb
+    obtain ⟨e, he, p, name, hd, rfl⟩ := (hghost a).1 ha
+    obtain ⟨e', he', p', name', hd', rfl⟩ := (hghost b).1 hb
+    exact LawfulTime.le_refl _
+  · -- ghostBits
+    intro g hg
+    obtain ⟨e, he, p, name, hd, rfl⟩ := (hghost g).1 hg
+    show bits (TimeOps.ofBits (bits (TimeOps.sub e.time q.clock))) = bits (TimeOps.sub e.time q.clock)
+    rw [laws.ofBits_bits _ (htime e he).1]
+  · -- uniq
+    unfold RState.timersUnique
+    rw [htm, List.pairwise_map]
+    refine List.Pairwise.filterMap _ ?_ hsrc
+    rintro a a' ⟨⟨_, hne⟩, hla, hla'⟩ b hb b' hb' ⟨hp, hn⟩
+    obtain ⟨p, name, hd, rfl⟩ := snapGhost_some hb
+    obtain ⟨p', name', hd', rfl⟩ := snapGhost_some hb'
+    simp only [TimerGhost.toPTimer] at hp hn
+    subst hp hn
+    exact hne (huniq a hla a' hla' _ _ hd hd')
+  · -- flights, as a multiset of triples
+    rw [hflights, List.map_filterMap]
+    have h1 : (snapshotSource q).filterMap (fun e => Option.map Flight.key
+        (match snapEv bits q.clock (snapshotNet bits q).maxDelay e with
+          | .msg m s d o => some (⟨m, s, d, o⟩ : Flight) | _ => none)) =
+        (snapshotSource q).filterMap (fun e => keyOfQ e.data) :=
+      filterMap_congr_mem (fun e _ => by unfold snapEv keyOfQ; cases e.data <;> rfl)
+    rw [h1]
+    refine ((snapshotSource_perm q).filterMap _).trans ?_
+    unfold deliverable
+    rw [List.filterMap_filter, List.filterMap_filter]
+    apply List.Perm.of_eq
+    apply filterMap_congr_mem
+    intro e he
+    cases hd : e.data with
+    | timer p name => simp [keyOfQ]
+    | msg mid m src sn dst dn =>
+      obtain ⟨hdn, hld, _⟩ := hr.queue.msgLoc e he mid m src sn dst dn hd
+      have hhas := hr.net.locNodes dst dn hld
+      have hk : snapKeep (crashedList q) e = q.handlers.contains e.dst := by
+        simp only [snapKeep, hd]
+        rw [hdn]
+        by_cases hh : dn ∈ q.handlers
+        · have : dn ∉ crashedList q := fun hc => ((hcrl dn).1 hc).2 hh
+          simp [hh, this]
+        · have : dn ∈ crashedList q := (hcrl dn).2 ⟨hhas, hh⟩
+          simp [hh, this]
+      rw [hk]
+  · -- inert
+    intro f hf
+    rw [hflights, List.mem_filterMap] at hf
+    obtain ⟨e, _, hfe⟩ := hf
+    unfold snapEv at hfe
+    cases hd : e.data with
+    | msg mid m src sn dst dn => rw [hd] at hfe; cases hfe; rfl
+    | timer p name => rw [hd] at hfe; cases hfe
 
 /-- the relation does not look at the trace of the reference state -/
 theorem TimedRel.withTrace (bits : T → Nat) (q : Sim σ T) (r : RState σ) (gs : List (TimerGhost T))
-    (hr : TimedRel bits q r gs) (tr : List LogE) : TimedRel bits q { r with trace := tr } gs := sorry
+    (hr : TimedRel bits q r gs) (tr : List LogE) : TimedRel bits q { r with trace := tr } gs :=
+  TimedRel.congr_r (r := r) (r' := { r with trace := tr }) rfl rfl rfl rfl rfl hr
+
+/-! ## a reference step only appends to the trace and commutes with replacing it -/
+
+namespace RState
+
+theorem act_withTrace (r : RState σ) (p : Nat) (a : Action) :
+    ∃ ext, (r.act p a).1.trace = r.trace ++ ext ∧
+      ∀ tr, ({ r with trace := tr } : RState σ).act p a = ({ (r.act p a).1 with trace := tr ++ ext }, (r.act p a).2) := by
+  cases a with
+  | send m dst =>
+    refine ⟨[LogE.sent m p dst], ?_, ?_⟩
+    · simp only [act]
+      split
+      · split <;> rfl
+      · rfl
+      · rfl
+    · intro tr
+      simp only [act]
+      split
+      · show (if (r.procCrashed _ || r.procCrashed _) = true then _ else _) = _
+        split <;> rfl
+      · rfl
+      · rfl
+  | loc m => exact ⟨[LogE.lsent m p], rfl, fun tr => rfl⟩
+  | set name delay once =>
+    cases hb : (once && r.timerPending p name) with
+    | true =>
+      refine ⟨[], ?_, ?_⟩
+      · simp [act, hb]
+      · intro tr
+        have hb' : (once && ({ r with trace := tr } : RState σ).timerPending p name) = true := hb
+        simp [act, hb, hb']
+    | false =>
+      refine ⟨[LogE.tset p name], ?_, ?_⟩
+      · simp [act, hb]
+      · intro tr
+        have hb' : (once && ({ r with trace := tr } : RState σ).timerPending p name) = false := hb
+        simp only [act, hb, hb', Bool.false_eq_true, if_false]
+        rfl
+  | cancel name =>
+    cases hb : r.timerPending p name with
+    | true =>
+      refine ⟨[LogE.tcancel p name], ?_, ?_⟩
+      · simp [act, hb]
+      · intro tr
+        have hb' : ({ r with trace := tr } : RState σ).timerPending p name = true := hb
+        simp only [act, hb, hb', if_true]
+        rfl
+    | false =>
+      refine ⟨[], ?_, ?_⟩
+      · simp [act, hb]
+      · intro tr
+        have hb' : ({ r with trace := tr } : RState σ).timerPending p name = false := hb
+        simp [act, hb, hb']
+
+theorem actsAux_withTrace (p : Nat) (as : List Action) : ∀ (r : RState σ) (late : List LogE),
+    ∃ ext, (actsAux p as r late).1.trace = r.trace ++ ext ∧
+      ∀ tr, actsAux p as { r with trace := tr } late =
+        ({ (actsAux p as r late).1 with trace := tr ++ ext }, (actsAux p as r late).2) := by
+  induction as with
+  | nil => intro r late; exact ⟨[], by simp [actsAux], fun tr => by simp [actsAux]⟩
+  | cons a rest ih =>
+    intro r late
+    obtain ⟨e1, h1, h2⟩ := act_withTrace r p a
+    obtain ⟨e2, h3, h4⟩ := ih (r.act p a).1 (late ++ (r.act p a).2)
+    refine ⟨e1 ++ e2, ?_, ?_⟩
+    · rw [actsAux_cons, h3, h1, List.append_assoc]
+    · intro tr
+      rw [actsAux_cons, actsAux_cons, h2 tr]
+      simp only
+      rw [h4 (tr ++ e1), List.append_assoc]
+
+theorem acts_withTrace (r : RState σ) (p : Nat) (as : List Action) :
+    ∃ ext, (r.acts p as).trace = r.trace ++ ext ∧
+      ∀ tr, ({ r with trace := tr } : RState σ).acts p as = { (r.acts p as) with trace := tr ++ ext } := by
+  obtain ⟨e1, h1, h2⟩ := actsAux_withTrace p as r []
+  refine ⟨e1 ++ (actsAux p as r []).2, ?_, ?_⟩
+  · show (actsAux p as r []).1.trace ++ (actsAux p as r []).2 = _
+    rw [h1, List.append_assoc]
+  · intro tr
+    show ({ (actsAux p as { r with trace := tr } []).1 with
+      trace := (actsAux p as { r with trace := tr } []).1.trace ++ (actsAux p as { r with trace := tr } []).2 } : RState σ) = _
+    rw [h2 tr]
+    simp only [List.append_assoc]
+    rfl
+
+theorem react_withTrace (h : Handler σ) (r r' : RState σ) (p : Nat) (i : Input) (hs : r.react h p i = some r') :
+    ∃ ext, r'.trace = r.trace ++ ext ∧
+      ∀ tr, ({ r with trace := tr } : RState σ).react h p i = some { r' with trace := tr ++ ext } := by
+  unfold react at hs
+  cases hp : amGet? p r.procs with
+  | none => rw [hp] at hs; cases hs
+  | some e =>
+    rw [hp] at hs
+    simp only at hs
+    by_cases hc : r.procCrashed p = true
+    · rw [if_pos hc] at hs; cases hs
+    · rw [if_neg hc] at hs
+      have hs' := Option.some.inj hs
+      obtain ⟨ext, h1, h2⟩ := acts_withTrace
+        ({ r with procs := r.procs.map (fun (x : Nat × RProc σ) => if x.1 = p then (x.1, { x.2 with st := (h p e.st i).1 }) else x) } : RState σ)
+        p (h p e.st i).2
+      refine ⟨ext, ?_, ?_⟩
+      · rw [← hs']; exact h1
+      · intro tr
+        have hp' : amGet? p ({ r with trace := tr } : RState σ).procs = some e := hp
+        have hc' : ¬ ({ r with trace := tr } : RState σ).procCrashed p = true := hc
+        unfold react
+        rw [hp']
+        simp only
+        rw [if_neg hc', ← hs']
+        exact congrArg some (h2 tr)
+
+end RState
 
 /-- a reference step only appends to the trace and commutes with replacing it -/
 theorem RState.step_withTrace (h : Handler σ) (r r' : RState σ) (l : Label) (tr : List LogE)
     (hs : r.step h l = some r') :
-    ∃ ext, r'.trace = r.trace ++ ext ∧ ({ r with trace := tr } : RState σ).step h l = some { r' with trace := tr ++ ext } := sorry
+    ∃ ext, r'.trace = r.trace ++ ext ∧ ({ r with trace := tr } : RState σ).step h l = some { r' with trace := tr ++ ext } := by
+  cases l with
+  | deliver i =>
+    simp only [RState.step] at hs ⊢
+    cases hf : r.flights[i]? with
+    | none => rw [hf] at hs; cases hs
+    | some f =>
+      rw [hf] at hs
+      simp only at hs ⊢
+      obtain ⟨ext, h1, h2⟩ := RState.react_withTrace h _ r' f.dst (.msg f.m f.src) hs
+      refine ⟨[LogE.recv f.m f.src f.dst] ++ ext, ?_, ?_⟩
+      · rw [h1]; simp
+      · have := h2 (tr ++ [LogE.recv f.m f.src f.dst])
+        rw [List.append_assoc] at this
+        exact this
+  | fire j =>
+    simp only [RState.step] at hs ⊢
+    cases hf : r.timers[j]? with
+    | none => rw [hf] at hs; cases hs
+    | some t =>
+      rw [hf] at hs
+      simp only at hs ⊢
+      obtain ⟨ext, h1, h2⟩ := RState.react_withTrace h _ r' t.proc (.timer t.name) hs
+      refine ⟨[LogE.tfired t.proc t.name] ++ ext, ?_, ?_⟩
+      · rw [h1]; simp
+      · have := h2 (tr ++ [LogE.tfired t.proc t.name])
+        rw [List.append_assoc] at this
+        exact this
+  | drop i =>
+    simp only [RState.step] at hs ⊢
+    split at hs
+    · rename_i m s d _ _ hf
+      cases hs
+      exact ⟨[LogE.dropped m s d], rfl, rfl⟩
+    · cases hs
+  | dup i =>
+    simp only [RState.step] at hs ⊢
+    split at hs
+    · rename_i m s d a n c hf
+      cases hs
+      exact ⟨[LogE.duplicated m s d], rfl, rfl⟩
+    · cases hs
+  | corrupt i =>
+    simp only [RState.step] at hs ⊢
+    split at hs
+    · rename_i m s d a n hf
+      cases hs
+      exact ⟨[LogE.corrupted m (corruptMc m) s d], rfl, rfl⟩
+    · cases hs
+
+/-! ## Non-vacuity -/
+
+/-- the snapshot time laws hold for `Ticks` with the `bits` of `R4Demo` -/
+theorem ticks_snapTimeLaws : SnapTimeLaws R4Demo.bitsT where
+  bits_mono := by
+    intro x y h
+    simpa [TimeOps.le, R4Demo.bitsT] using h
+  add_sub := by
+    intro c t h
+    simp only [TimeOps.le, decide_eq_true_eq] at h
+    show (⟨c.n + (t.n - c.n)⟩ : Ticks) = t
+    cases t with
+    | mk n => simp only at h ⊢; congr 1; omega
+  ofBits_bits := by
+    intro x _
+    cases x; rfl
+  sub_nonneg := by
+    intro c t _
+    simp [TimeOps.le, TimeOps.zero]
+  add_mono_left := by
+    intro a b c h
+    simp only [TimeOps.le, TimeOps.add, decide_eq_true_eq] at h ⊢
+    omega
+
+example : SnapTimeLaws R4Demo.bitsT := ticks_snapTimeLaws
+
+/-- the demo state `q1` of `R4Demo` (one queued timer, one queued message) is related to the reference state of its
+    snapshot: the hypothesis of `timedRel_snapshot` is satisfiable with a non-empty queue -/
+example : ∃ gs₀, TimedRel R4Demo.bitsT R4Demo.q1 (snapshotRef R4Demo.bitsT R4Demo.q1) gs₀ := by
+  obtain ⟨r, gs, hrel, _⟩ := R4Demo.demo_hyps
+  exact timedRel_snapshot R4Demo.bitsT ticks_snapTimeLaws R4Demo.q1 r gs hrel
+
+/-- the snapshot of `q1` stands for one in-flight message and one pending timer with remaining time 5 -/
+example : (snapshotRef R4Demo.bitsT R4Demo.q1).timers = [⟨1, 1, 5⟩] ∧
+    (snapshotRef R4Demo.bitsT R4Demo.q1).flights.map Flight.core = [(⟨0, []⟩, 1, 1)] := by decide
 
 end Anysystem
